@@ -114,7 +114,7 @@ type decodeArgs struct {
 	V    json.RawMessage `json:"v"`
 }
 
-var decodeTypes = []string{"Mapping", "MappingWithEquals", "Labels", "HostsList", "StringList", "StringOrNumberList", "HealthCheckTest", "Options", "DeviceCount", "UlimitsConfig"}
+var decodeTypes = []string{"Mapping", "MappingWithEquals", "Labels", "HostsList", "StringList", "StringOrNumberList", "HealthCheckTest", "Options", "DeviceCount", "UlimitsConfig", "ShellCommand"}
 
 func strPtrMap(m map[string]*string) any {
 	out := map[string]any{}
@@ -187,6 +187,15 @@ func realDecode(raw json.RawMessage) any {
 		var x types.HealthCheckTest
 		err = x.DecodeMapstructure(v)
 		res = strList(x)
+	case "ShellCommand":
+		if _, isStr := v.(string); isStr {
+			return map[string]any{"bad": "type"} // string form: go-shellwords, outside the model
+		}
+		var x types.ShellCommand
+		err = x.DecodeMapstructure(v)
+		if x != nil {
+			res = strList(x)
+		}
 	case "DeviceCount":
 		var x types.DeviceCount
 		err = x.DecodeMapstructure(v)
